@@ -1,0 +1,438 @@
+//go:build verif
+
+// Export for the external verification harness (properties C04 and C14:
+// volatile data removal).  Compiled only with -tags verif; adds no behaviour
+// to normal builds.
+//
+// A pipestance is built over a directory without running any job; the
+// harness writes the files a stage would have written, moves forks through
+// their phases by writing the same marker files the runtime writes, and
+// calls the storage bookkeeping (removeEmptyFileArgs, cacheParamFileMap,
+// partialVdrKill, Pipestance.VDRKill, ...) one step at a time, reading the
+// bookkeeping maps back after every step.
+
+package core
+
+import (
+	"context"
+	"encoding/json"
+	"fmt"
+	"sort"
+
+	"github.com/martian-lang/martian/martian/syntax"
+	"github.com/martian-lang/martian/martian/util"
+)
+
+type VerifVdr struct {
+	ps *Pipestance
+}
+
+// VerifVdrOpen builds (or re-attaches to) a pipestance for the call in src.
+func VerifVdrOpen(src []byte, srcPath, psid, psPath, mode string) (*VerifVdr, error) {
+	util.SetPrintLogger(verifNullWriter{})
+	conf := DefaultRuntimeOptions()
+	conf.VdrMode = VdrMode(mode)
+	rt := Runtime{
+		Config: &conf,
+		LocalJobManager: &LocalJobManager{
+			jobSettings: new(JobManagerSettings),
+		},
+	}
+	rt.JobManager = rt.LocalJobManager
+	_, _, pipestance, err := rt.instantiatePipeline(src, srcPath, psid, psPath,
+		nil, "none", nil, false, false, context.Background())
+	if err != nil {
+		return nil, err
+	}
+	// what a restarted mrp does when it re-attaches
+	pipestance.LoadMetadata(context.Background())
+	for _, node := range pipestance.node.allNodes() {
+		if err := node.mkdirs(); err != nil {
+			return nil, err
+		}
+	}
+	return &VerifVdr{ps: pipestance}, nil
+}
+
+func (v *VerifVdr) Close() { v.ps.Unlock() }
+
+type VerifVdrFork struct {
+	Node    string // fully qualified node name
+	Index   int
+	Id      string // fork directory name
+	Path    string
+	IsStage bool
+	Split   bool
+	// the three declarations isVolatile/isStrictVolatile are computed from
+	CallVolatile   bool
+	StrictDeclared bool
+	VolatileDecl   bool
+	// ... and what they say
+	IsVolatile bool
+	IsStrict   bool
+}
+
+func (v *VerifVdr) Forks() []VerifVdrFork {
+	var result []VerifVdrFork
+	for _, node := range v.ps.node.allNodes() {
+		for _, fork := range node.forks {
+			f := VerifVdrFork{
+				Node:       node.GetFQName(),
+				Index:      fork.index,
+				Id:         fork.id,
+				Path:       fork.path,
+				Split:      fork.Split(),
+				IsVolatile: fork.isVolatile(),
+				IsStrict:   fork.isStrictVolatile(),
+			}
+			if stage, ok := node.call.Callable().(*syntax.Stage); ok {
+				f.IsStage = true
+				if stage.Resources != nil {
+					f.StrictDeclared = stage.Resources.StrictVolatile
+					f.VolatileDecl = stage.Resources.VolatileNode != nil
+				}
+			}
+			if mods := node.call.Call().Modifiers; mods != nil {
+				f.CallVolatile = mods.Volatile
+			}
+			result = append(result, f)
+		}
+	}
+	return result
+}
+
+func (v *VerifVdr) fork(node string, index int) *Fork {
+	for _, n := range v.ps.node.allNodes() {
+		if n.GetFQName() == node {
+			if index < len(n.forks) {
+				return n.forks[index]
+			}
+		}
+	}
+	panic(fmt.Sprintf("verif: no fork %d of %s", index, node))
+}
+
+// The top-level pipeline is recorded as a nil *Node, a retain declaration as
+// a nil interface; both mean "never finishes".
+func verifIsTop(h Nodable) bool {
+	if h == nil {
+		return true
+	}
+	n, ok := h.(*Node)
+	return ok && n == nil
+}
+
+// VerifTopHolder is the name under which the nil holder (top-level pipeline
+// or retain) is reported.
+const VerifTopHolder = ""
+
+// Books returns the fork's fileArgs (argument -> holders), filePostNodes
+// (node -> arguments) and fileParamMap (file -> arguments; hasFpm is false
+// when the map is nil).  All lists are sorted.  Keys with empty sets are
+// kept so that they are visible.
+func (v *VerifVdr) Books(node string, index int) (fa, fp, fpm map[string][]string, hasFpm bool) {
+	fork := v.fork(node, index)
+	fork.storageLock.Lock()
+	defer fork.storageLock.Unlock()
+	fa = make(map[string][]string, len(fork.fileArgs))
+	for arg, holders := range fork.fileArgs {
+		l := make([]string, 0, len(holders))
+		for h := range holders {
+			if verifIsTop(h) {
+				l = append(l, VerifTopHolder)
+			} else {
+				l = append(l, h.GetFQName())
+			}
+		}
+		sort.Strings(l)
+		fa[arg] = l
+	}
+	fp = make(map[string][]string, len(fork.filePostNodes))
+	for n, args := range fork.filePostNodes {
+		l := make([]string, 0, len(args))
+		for a := range args {
+			l = append(l, a)
+		}
+		sort.Strings(l)
+		name := VerifTopHolder
+		if !verifIsTop(n) {
+			name = n.GetFQName()
+		}
+		fp[name] = l
+	}
+	if fork.fileParamMap != nil {
+		hasFpm = true
+		fpm = make(map[string][]string, len(fork.fileParamMap))
+		for file, entry := range fork.fileParamMap {
+			l := make([]string, 0, len(entry.args))
+			for a := range entry.args {
+				l = append(l, a)
+			}
+			sort.Strings(l)
+			fpm[file] = l
+		}
+	}
+	return
+}
+
+type VerifVdrDirs struct {
+	SplitFiles, SplitTmp, JoinFiles, JoinTmp string
+	ChunkFiles, ChunkTmp                     []string
+}
+
+// PrepareChunks gives the fork n chunks the way doChunks does after reading
+// the split's stage definitions (without marking the split complete), and
+// returns the directories its jobs write to.
+func (v *VerifVdr) PrepareChunks(node string, index, n int) VerifVdrDirs {
+	fork := v.fork(node, index)
+	if len(fork.chunks) == 0 || len(fork.chunks) != n {
+		defs := make([]*ChunkDef, n)
+		for i := range defs {
+			defs[i] = new(ChunkDef)
+		}
+		fork.stageDefs = &StageDefs{ChunkDefs: defs, JoinDef: &JobResources{}}
+		_ = fork.split_metadata.Write(StageDefsFile, fork.stageDefs)
+		fork.chunks = make([]*Chunk, 0, n)
+		width := util.WidthForInt(n)
+		for i, def := range defs {
+			chunk := NewChunk(fork, i, def, width)
+			fork.chunks = append(fork.chunks, chunk)
+			chunk.mkdirs()
+		}
+		fork.metadatasCache = nil
+	}
+	d := VerifVdrDirs{
+		SplitFiles: fork.split_metadata.FilesPath(),
+		SplitTmp:   fork.split_metadata.TempDir(),
+		JoinFiles:  fork.join_metadata.FilesPath(),
+		JoinTmp:    fork.join_metadata.TempDir(),
+	}
+	for _, chunk := range fork.chunks {
+		d.ChunkFiles = append(d.ChunkFiles, chunk.metadata.FilesPath())
+		d.ChunkTmp = append(d.ChunkTmp, chunk.metadata.TempDir())
+	}
+	return d
+}
+
+// Phase reports the fork's state as the runtime sees it.
+func (v *VerifVdr) Phase(node string, index int) string {
+	return string(v.fork(node, index).getState())
+}
+
+// SplitDone marks the split complete; as doChunks does, a volatile fork then
+// cleans the split's temporary directory.
+func (v *VerifVdr) SplitDone(node string, index int) {
+	fork := v.fork(node, index)
+	fork.split_metadata.WriteTime(CompleteFile)
+	if fork.isVolatile() {
+		fork.storageLock.Lock()
+		defer fork.storageLock.Unlock()
+		fork.cleanSplitTemp(nil)
+	}
+}
+
+func (v *VerifVdr) ChunksDone(node string, index int) {
+	for _, chunk := range v.fork(node, index).chunks {
+		chunk.metadata.WriteTime(CompleteFile)
+	}
+}
+
+func (v *VerifVdr) JoinDone(node string, index int) {
+	v.fork(node, index).join_metadata.WriteTime(CompleteFile)
+}
+
+// Complete does the storage-related part of doComplete with the given
+// outputs: in post mode the file map is cached and temporary files are
+// cleaned before the fork is marked complete; then arguments without any
+// file name are dropped.  (The asynchronous caching and partialVdrKill which
+// follow in the other modes are the separate steps Cache and PartialKill.)
+func (v *VerifVdr) Complete(node string, index int, outs []byte) error {
+	fork := v.fork(node, index)
+	var lazy LazyArgumentMap
+	if err := json.Unmarshal(outs, &lazy); err != nil {
+		return err
+	}
+	if err := fork.metadata.WriteRawBytes(OutsFile, outs); err != nil {
+		return err
+	}
+	if fork.node.top.rt.Config.VdrMode == VdrPost {
+		func() {
+			fork.storageLock.Lock()
+			defer fork.storageLock.Unlock()
+			fork.cacheParamFileMap(lazy)
+		}()
+		fork.partialVdrKill()
+	}
+	fork.metadata.WriteTime(CompleteFile)
+	fork.removeEmptyFileArgs(lazy)
+	return nil
+}
+
+// Disable marks a fork disabled.
+func (v *VerifVdr) Disable(node string, index int) {
+	v.fork(node, index).metadata.WriteTime(DisabledFile)
+}
+
+func (v *VerifVdr) Cache(node string, index int) error {
+	fork := v.fork(node, index)
+	outs, err := fork.metadata.read(OutsFile, 1<<30)
+	if err != nil {
+		return err
+	}
+	fork.storageLock.Lock()
+	defer fork.storageLock.Unlock()
+	fork.cacheParamFileMap(outs)
+	return nil
+}
+
+type VerifVdrReport struct {
+	Present bool
+	Paths   []string
+	Count   uint
+	Size    uint64
+	Errors  []string
+	// partial reports only
+	Split, Chunks, Join bool
+}
+
+func verifReport(r *VDRKillReport) VerifVdrReport {
+	if r == nil {
+		return VerifVdrReport{}
+	}
+	return VerifVdrReport{Present: true, Paths: r.Paths, Count: r.Count, Size: r.Size, Errors: r.Errors}
+}
+
+func (v *VerifVdr) PartialKill(node string, index int) (VerifVdrReport, bool) {
+	rep, done := v.fork(node, index).partialVdrKill()
+	return verifReport(rep), done
+}
+
+// NodeKill is Node.vdrKill, what a finishing consumer triggers on each of
+// its prenodes (cachePerf).
+func (v *VerifVdr) NodeKill(node string) (VerifVdrReport, bool) {
+	for _, n := range v.ps.node.allNodes() {
+		if n.GetFQName() == node {
+			rep, done := n.vdrKill()
+			return verifReport(rep), done
+		}
+	}
+	panic("verif: no node " + node)
+}
+
+func (v *VerifVdr) FinalSweep() VerifVdrReport {
+	return verifReport(v.ps.VDRKill())
+}
+
+// Reports reads the fork's durable reports back.
+func (v *VerifVdr) Reports(node string, index int) (partial, final VerifVdrReport) {
+	fork := v.fork(node, index)
+	if p := fork.getPartialKillReport(); p != nil {
+		partial = verifReport(&p.VDRKillReport)
+		partial.Split, partial.Chunks, partial.Join = p.Split, p.Chunks, p.Join
+	}
+	if r, ok := fork.getVdrKillReport(); ok {
+		final = verifReport(r)
+	}
+	return
+}
+
+// ---- the bookkeeping primitives on their own
+
+func (v *VerifVdr) RemoveFileArg(node string, index int, arg string) {
+	fork := v.fork(node, index)
+	fork.storageLock.Lock()
+	defer fork.storageLock.Unlock()
+	fork.removeFileArg(arg)
+}
+
+func (v *VerifVdr) RemoveFilePostNodes(node string, index int, nodes []string) {
+	fork := v.fork(node, index)
+	fork.storageLock.Lock()
+	defer fork.storageLock.Unlock()
+	var l []Nodable
+	for _, name := range nodes {
+		for n := range fork.filePostNodes {
+			if n != nil && n.GetFQName() == name {
+				l = append(l, n)
+			}
+		}
+	}
+	fork.removeFilePostNodes(l)
+}
+
+func (v *VerifVdr) UpdateParamFileCache(node string, index int) {
+	fork := v.fork(node, index)
+	fork.storageLock.Lock()
+	defer fork.storageLock.Unlock()
+	fork.updateParamFileCache()
+}
+
+// CloneBooks clones the fork the way dynamic fork expansion does and returns
+// the clone's fileArgs and filePostNodes (the clone is not added to the node).
+func (v *VerifVdr) CloneBooks(node string, index int) (fa, fp map[string][]string) {
+	fork := v.fork(node, index)
+	nf := cloneFork(fork, fork.forkId)
+	fa = make(map[string][]string)
+	for arg, holders := range nf.fileArgs {
+		l := make([]string, 0, len(holders))
+		for h := range holders {
+			if verifIsTop(h) {
+				l = append(l, VerifTopHolder)
+			} else {
+				l = append(l, h.GetFQName())
+			}
+		}
+		sort.Strings(l)
+		fa[arg] = l
+	}
+	fp = make(map[string][]string)
+	for n, args := range nf.filePostNodes {
+		l := make([]string, 0, len(args))
+		for a := range args {
+			l = append(l, a)
+		}
+		sort.Strings(l)
+		fp[n.GetFQName()] = l
+	}
+	return
+}
+
+func VerifMergeVDRKillReports(reports []VerifVdrReport) VerifVdrReport {
+	l := make([]*VDRKillReport, len(reports))
+	for i, r := range reports {
+		if r.Present {
+			l[i] = &VDRKillReport{Paths: r.Paths, Count: r.Count, Size: r.Size, Errors: r.Errors}
+		}
+	}
+	return verifReport(mergeVDRKillReports(l))
+}
+
+func VerifAnyOverlap(names []string, files []string) (string, string) {
+	m := make(map[string]struct{}, len(files))
+	for _, f := range files {
+		m[f] = struct{}{}
+	}
+	return anyOverlap(names, m)
+}
+
+func VerifPathIsInside(test, parent string) bool { return pathIsInside(test, parent) }
+
+func VerifGetMaybeFileNames(value []byte) []string {
+	return getMaybeFileNames(json.RawMessage(value))
+}
+
+// VerifArgFiles is getArgsToFilesMap for one argument of the given outputs:
+// every logical name of every path the argument's value contains.
+func VerifArgFiles(outs []byte, arg string) ([]string, error) {
+	var lazy LazyArgumentMap
+	if err := json.Unmarshal(outs, &lazy); err != nil {
+		return nil, err
+	}
+	m := getArgsToFilesMap(map[string]map[Nodable]struct{}{arg: nil}, lazy, false, "")
+	var l []string
+	for f := range m[arg] {
+		l = append(l, f)
+	}
+	sort.Strings(l)
+	return l, nil
+}
